@@ -200,7 +200,7 @@ def run_shard(d):
     try:
         build(d)
     except Exception as e:
-        py4hw.Wire.prepared = []
+        core.reset_prepared()
         return {'constructor_rejected': 1, 'configs': 1, 'vacuous_ok': True, 'distinct_outcomes': 0,
                 'samples': [{'config': d, 'rejected': repr(e)[:200]}], 'violations': []}
     try:
@@ -210,7 +210,7 @@ def run_shard(d):
         raise
     except Exception as e:
         # the block itself raised while being simulated: it has no behaviour to compare
-        py4hw.Wire.prepared = []
+        core.reset_prepared()
         return {'configs': 1, 'states': 1, 'transitions': 1, 'vacuous_ok': True, 'distinct_outcomes': 0,
                 'violations': [{'sig': 'C09:%s:raises:%s' % (d['block'], type(e).__name__), 'shard': d,
                                 'trace': [], 'detail': {'exception': repr(e)[:300]}}]}
